@@ -303,7 +303,7 @@ func driverRT(c *Ctx) {
 		case "incomplete":
 			// C02: a message that is not complete encodes to nothing
 			var it ast.ItemNode = g.tree(depth, false).Build()
-			cause := 1 + g.pick(7)
+			cause := 1 + g.pick(15)
 			w := gm.W
 			if cause&1 != 0 {
 				w = 2
@@ -311,9 +311,20 @@ func driverRT(c *Ctx) {
 			if cause&2 != 0 {
 				it = g.tree(depth, true).Build()
 			}
+			if cause&8 != 0 {
+				// the open variable arrives later, inside an item that is filled into a variable of the list
+				it = ast.NewListNode(it, "hole9", ast.NewBooleanNode(true))
+			}
 			m = ast.NewDataMessage(gm.Name, gm.S, gm.F, w, gm.Dir, it)
 			if cause&4 == 0 {
 				m = m.SetSessionIDAndSystemBytes(gm.Sid, gm.Sys)
+			}
+			if cause&8 != 0 {
+				var carrier ast.ItemNode = ast.NewUintNode(2, 7, "inner9")
+				if g.pick(2) == 0 {
+					carrier = ast.NewListNode(ast.NewASCIINode("k"), ast.NewListNode("inner9"))
+				}
+				m = m.FillVariables(map[string]interface{}{"hole9": carrier})
 			}
 		}
 		if !c.want(i) {
